@@ -1,6 +1,6 @@
 (* Correspondence runner for the inbound path (C03, C04, C13, read side of C16/C06):
    the events delivered, the way the read loop ended and the close status must equal the model's. *)
-From Gws Require Import Lib.Base Lib.Val Spec.Rfc6455 Model.Header Model.CloseCode Model.Reader.
+From Gws Require Import Lib.Base Lib.Val Spec.Rfc6455 Model.Header Model.CloseCode Model.Reader Model.Utf8.
 Local Open Scope N_scope.
 
 Definition win_write (cap : nat) (w p : list N) : list N := if (cap =? 0)%nat then [] else lastn cap (w ++ p).
@@ -15,7 +15,7 @@ Fixpoint lookup_inflate (tbl : list val) (dict src : list N) : option (list N) :
       else lookup_inflate r dict src
   end.
 
-(* utf8 verdict table: VL [ VL [bytes; VN ok] ... ]; absent = valid (only non-ASCII payloads are shipped) *)
+(* utf8 verdict table (legacy field of the case format; the runner now uses Model/Utf8.utf8_valid itself) *)
 Fixpoint lookup_utf8 (tbl : list val) (p : list N) : bool :=
   match tbl with
   | [] => true
@@ -58,6 +58,6 @@ Definition check_c03 (c : val) : bool :=
   let cap := vnat (vget 1 c) in
   let stream := vb (vget 2 c) in
   let itbl := vl (vget 3 c) in let utbl := vl (vget 4 c) in
-  let '(evs, o) := read_stream (lookup_utf8 utbl) (fun d s _ => lookup_inflate itbl d s) (list N) (fun x => x) (win_write cap)
+  let '(evs, o) := read_stream Utf8.utf8_valid (fun d s _ => lookup_inflate itbl d s) (list N) (fun x => x) (win_write cap)
                                (S (length stream)) cfg (r_init (list N) []) stream in
   evs_eqb evs (vl (vget 5 c)) && outcome_eqb (list N) o (vget 6 c).
